@@ -637,7 +637,7 @@ def parse_batch_output(out):
     return res
 
 
-def run_batch(exe, cases, per_case_timeout=10.0, env=None, chunk=400, args=()):
+def run_batch(exe, cases, per_case_timeout=10.0, env=None, chunk=400, args=(), max_bad=12):
     """Run cases through a driver. Returns dict name -> dict(lines, status, detail)
     status in ok|crash|timeout."""
     results = {}
@@ -647,7 +647,13 @@ def run_batch(exe, cases, per_case_timeout=10.0, env=None, chunk=400, args=()):
     e["UBSAN_OPTIONS"] = "print_stacktrace=1:halt_on_error=1"
     if env:
         e.update(env)
+    nbad = 0
     while todo:
+        if nbad >= max_bad:
+            # enough crashing / hanging cases to decide; the rest is not run
+            for c in todo:
+                results[c.name] = {"lines": [], "status": "skipped", "detail": "not run: %d earlier cases crashed or hung" % nbad}
+            break
         part, todo = todo[:chunk], todo[chunk:]
         inp = "".join(c.text() for c in part)
         to = 20 + per_case_timeout * len(part)
@@ -667,6 +673,7 @@ def run_batch(exe, cases, per_case_timeout=10.0, env=None, chunk=400, args=()):
             c = part[bad_idx]
             partial = parsed.get(c.name, ([], False))[0]
             st = "timeout" if rc == 124 else "crash"
+            nbad += 1
             results[c.name] = {"lines": partial, "status": st,
                                "detail": "rc=%d %s" % (rc, summarize_stderr(err))}
             todo = part[bad_idx + 1:] + todo
